@@ -145,8 +145,9 @@ static void modeParsed(Dec &d, Case &c) {
                 if (md) { KSI_Utf8String *u = nullptr; KSI_Integer *q = nullptr; KSI_OctetString *o = nullptr; KSI_MetaDataElement_getClientId(md, &u); KSI_MetaDataElement_getMachineId(md, &u); KSI_MetaDataElement_getSequenceNr(md, &q); KSI_MetaDataElement_getRequestTimeInMicros(md, &q); KSI_MetaDataElement_getPadding(md, &o); c.cls("parsed:metadata-read-through-getters"); } }
             seq += "g"; }
         ref::ChainResult want = ref::aggregate(r.links, r.in, start, r.alg);
-        int endLevel = -777; KSI_DataHash *root = nullptr; int ra = KSI_AggregationHashChain_aggregate(p.c, start, &endLevel, &root);
-        seq += num(start) + (want.ok ? "+" : "-");
+        bool noLevelOut = (start + (int)i) % 3 == 0; // the optional root-level output is left out in a third of the calls (derived, not drawn: saved choice strings keep their meaning); the memoised level must be right all the same
+        int endLevel = -777; KSI_DataHash *root = nullptr; int ra = KSI_AggregationHashChain_aggregate(p.c, start, noLevelOut ? nullptr : &endLevel, &root); if (noLevelOut) { c.cls("parsed:aggregate-without-level-output"); if (want.ok) endLevel = want.level; }
+        seq += num(start) + (noLevelOut ? "n" : "") + (want.ok ? "+" : "-");
         if (want.ok) {
             if (ra != KSI_OK) VF_FAIL(c, "C03:chain-aggregate:valid-refused", "valid chain refused at start level " + num(start) + " res=" + num(ra) + " seq " + seq);
             else if (imprintOf(root) != want.hash) VF_FAIL(c, anyFailBefore || i ? "C03:chain-aggregate:memo-hash-differs" : "C03:chain-aggregate:hash-differs", "root hash differs from formula at start level " + num(start) + " (sequence " + seq + ")");
